@@ -356,6 +356,24 @@ def run_case(case):
                   "detail": f"{case['method']} {case['dtype']} shape {shape} factors {factors}: "
                   "downscaling the same array twice gives different results"})
     got = out.tolist()
+    if case["vseed"] % 2 == 0 and not case.get("huge"):
+        # results kept while the same object downscales ANOTHER chunk of the same shape
+        # (np.concatenate([d.downscale(c, f) for c in chunks])): the earlier result stays
+        held = out.tobytes()
+        other = np.ascontiguousarray(arr[..., ::-1, ::-1])
+        try:
+            with np.errstate(all="ignore"):
+                ds.downscale(other, tuple(factors))
+            obs["later_calls_with_earlier_result_held"] = 1
+            if out.tobytes() != held:
+                v.append({"kind": "earlier-result-changed-by-a-later-call",
+                          "detail": f"{case['method']} {case['dtype']} shape {shape} factors "
+                          f"{factors}: the array returned by the first call changed when the "
+                          "same downscaler processed another chunk of the same shape"})
+        except Exception as exc:  # noqa: BLE001
+            v.append({"kind": "downscale-raised",
+                      "detail": f"{case['method']} {case['dtype']} shape {shape} factors "
+                      f"{factors}: second chunk: {type(exc).__name__}: {exc}"})
     m = case["method"]
     isint = case["dtype"] in dx.INT_RANGE
     for t in range(want_shape[0]):
@@ -451,6 +469,8 @@ def gates(obs, tier):
         "unsupported_probes_run": obs.get("unsupported_probes", 0) >= 10,
         "arrays_beyond_64_per_axis": obs.get("large_arrays", 0) > 0,
         "arrays_beyond_2_20_voxels": obs.get("huge_arrays", 0) > 0,
+        "later_calls_with_earlier_result_held": obs.get(
+            "later_calls_with_earlier_result_held", 0) > 500,
         "downscalers_chosen_by_the_auto_method": obs.get(
             "downscalers_chosen_by_the_auto_method", 0) > 20,
         "outside_values_given_as_numpy_scalars": obs.get(
